@@ -483,6 +483,12 @@ def case_history(case):
                               "msg": "two executions of solve %s with %d thread(s) in history %s are not bit-identical" % (name, nthreads, sig_hist)})
                     break
             runs.append((name, nthreads, c.tobytes(), f.tobytes(), (c, f), pos))
+            # ... and the caller now USES its coordinates: tower-relative x, y in place, heights above the first node (the
+            # grid of a result is the caller's; whatever a later solve reports must not depend on this edit)
+            for i, (a_, b_) in enumerate(((-17.25, 1.0), (3.5, 2.0), (-0.125, 1.0))):
+                if isinstance(g[i], np.ndarray) and g[i].flags.writeable:
+                    g[i] *= b_
+                    g[i] += a_
     # (iv) earlier results must not have been touched by later calls
     for (name, t, cb, fb, (c, f), pos) in runs:
         if c.tobytes() != cb or f.tobytes() != fb:
